@@ -84,6 +84,12 @@ def run(ctx, crate):
         c_lines = T.field_of(g.lines.iterable) == (g.F, 1)
         obs.append(Ob("R11.entries", fn, "loops: every (file, lines) of this pattern, every line of lines", bool(c_files and c_lines),
                       expected="files = pattern_entry.1 ; lines = file_entry.1", found="files=%s lines=%s" % (show(g.files.iterable), show(g.lines.iterable))))
+        early = []
+        for lp in (g.outer, g.files, g.lines):
+            normal, extra = lp.exits()
+            early += [b.blocks[x]["tloc"]["line"] for (x, t) in extra]
+        obs.append(Ob("R11.entries", fn, "the loops over patterns, files and lines run to exhaustion", not early,
+                      expected="no break / early return inside the rendering loops", found=("early exit at line(s) %s" % sorted(set(early))) if early else "exhaustion only"))
         # the list object
         inner = [s for s in g.pushes if g.in_loop(s, g.lines)]
         bufs = set(s.args[0] for s in inner)
